@@ -219,6 +219,9 @@ HasCause(o) ==   \* something has happened that obliges the operation to return
 Quiescent ==
   /\ IsEvent("Quiescent")
   /\ Imp("C05", \A o \in DOMAIN ops : (ops[o].st = "open" /\ HasCause(o)) => FALSE)   \* nothing blocks once a cause is present
+  \* C04: an operation all of whose requests the peer has answered (after they were sent) completes - with those answers
+  /\ Imp("C04", \A o \in DOMAIN ops : (ops[o].st = "open" /\ ~stopped /\ CallIds(o) # {}
+                                        /\ \A x \in CallIds(o) : x \in DOMAIN got /\ \E q \in got[x] : ~q.pre) => FALSE)
   \* (OnStop has no deadline short of Close returning: Close runs it after waiting for the reader and callbacks)
   /\ Imp("C05", (stopped /\ ~closeOpen) => onstop = 1)
   /\ UNCHANGED <<ops, idof, live, got, idres, stopped, pend, causes, sendBad, oncancel, onstop, cbrun, closeOpen, closeDone, rdDone>>
